@@ -291,6 +291,32 @@ def value_history_probe(run, rng, dist):
                              observed=list(got), refusal='invalid-value', segment=None)
 
 
+def datatype_object_probe(run, dist):
+    """A base datatype OBJECT assigned as a value goes through the same STRICT gate as text: an object of another class, or
+    one built under TOLERANT with an over-long value, is no valid value of the subcomponent's datatype."""
+    from hl7apy.core import SubComponent
+    from hl7apy.exceptions import HL7apyException
+    for v in ('2.3', '2.5', '2.7'):
+        bdt = hl7apy.load_library(v).get_base_datatypes()
+        for dt, obj, why in (('NM', lambda: bdt['ST']('abc'), 'ST object into NM'),
+                             ('SI', lambda: bdt['ST']('x' * 300, validation_level=S.TOLERANT), 'over-long TOLERANT ST object into SI'),
+                             ('DT', lambda: bdt['NM'](3), 'NM object into DT')):
+            if dt not in bdt:
+                continue
+            dist['datatype_object_probes'] = dist.get('datatype_object_probes', 0) + 1
+            try:
+                sc = SubComponent(datatype=dt, version=v, validation_level=S.STRICT)
+                sc.value = obj()
+                run.fail('strict-admits-invalid-value', 'STRICT construction admits what it must refuse: a datatype object that is no '
+                         'value of the subcomponent\'s datatype', version=v, segment=None, field=None, datatype=dt,
+                         via='datatype-object-of-another-class', value=why)
+            except (HL7apyException, ValueError):
+                pass
+            except Exception as ex:  # noqa
+                run.fail('strict-api-crash', 'a STRICT API call raised a non-library exception', version=v, segment=None, field=None,
+                         what=why, exc=repr(ex))
+
+
 def report(el):
     try:
         rep = el.validate(return_errors=True)
@@ -361,6 +387,7 @@ def main(argv=None):
                                  r'^z[a-z1-9]{2}$', name, __import__('re').I) is None))
     strict_api_refusals(run, rng, dist)
     value_history_probe(run, rng, dist)
+    datatype_object_probe(run, dist)
     run.log('segments: %s, %d failures' % (dist, len(run.failures)))
     # ---- messages
     nmsg = 10 if not run.thorough else 60
